@@ -44,7 +44,8 @@ ASSUMES = [
     "further apart than tol",
     "the solver-side oracles (QobjEvo operator, solver, save/reload) run only on strictly increasing grids",
     "the model describes the tree with fixes/C14-step-last-sample.diff, fixes/C14-read-coeff.diff and "
-    "fixes/C14-fill-coeff-repeated-points.diff applied",
+    "fixes/C14-fill-coeff-repeated-points.diff applied; whether run_analytically guards `tlist is None` "
+    "(fixes/C06-empty-pulse-table.diff) is read from the source and selects run_slices or run_slices_v2",
 ]
 
 TOL = Fraction(1e-10)           # exact value of the double used by the code
@@ -288,7 +289,8 @@ Definition run (ps : list pulse) :=
    option_map (map (fun s => (eq_ (fst s), el (snd s)))) (run_slices tol ps),
    inputs_okb tol ps,
    option_map (map el) (get_full_coeffs_v0 tol ps),
-   option_map (map el) (get_full_coeffs_v1 tol ps)).
+   option_map (map el) (get_full_coeffs_v1 tol ps),
+   option_map (map (fun s => (eq_ (fst s), el (snd s)))) (run_slices_v2 tol ps)).
 Definition runfile (inct : bool) (labels : list string) (ps : list pulse) :=
   match get_full_tlist tol ps, get_full_coeffs tol ps with
   | Some full, Some rows =>
@@ -300,6 +302,21 @@ Definition runfile (inct : bool) (labels : list string) (ps : list pulse) :=
   | _, _ => None
   end.
 """ % cq(TOL)
+
+
+_GUARD = {}
+
+
+def guards_none_grid():
+    """configuration flag read from the source under check: does Processor.run_analytically turn a None time
+    grid into [] (fixes/C06-empty-pulse-table.diff)?  Selects run_slices (guard) or run_slices_v2 (no guard)."""
+    if "v" not in _GUARD:
+        import inspect
+        import re
+        from qutip_qip.device import Processor
+        src = inspect.getsource(Processor.run_analytically)
+        _GUARD["v"] = bool(re.search(r"if\s+tlist\s+is\s+None\s*:", src))
+    return _GUARD["v"]
 
 
 def coq_pulse(ch):
@@ -354,7 +371,9 @@ def run_models(ctx_name, cases, filecases):
         raise Broken("coq-eval:c14", "expected %d results, got %d" % (len(cases), len(res)))
     models = []
     for r in res:
-        full, rows, sl, okb, rows0, rows1 = r
+        full, rows, sl, okb, rows0, rows1, sl2 = r
+        if not guards_none_grid():
+            sl = sl2          # the tree has no `tlist is None` guard in run_analytically: model run_slices_v2
         models.append(dict(
             full=dec_opt(full, dec_list),
             rows=dec_opt(rows, lambda x: [dec_list(y) for y in x]),
@@ -392,6 +411,11 @@ def oracle_case(inp, impl=None, proc=None, mats=None, solver=False, files=True, 
     if impl is None:
         impl, proc, mats = run_impl(inp)
     kind = inp.get("kind", "step")
+    if not inp["channels"]:
+        # no pulse at all: if the processor is accepted, zero time elapses -- the ordered product is empty
+        if impl["props"] is not None and len(impl["props"]) != 0:
+            fail("a processor without pulses yields propagators", len(impl["props"]), 0)
+        return fails
     if kind == "cubic":
         oracle_cubic(inp, impl, fail)
         return fails
@@ -979,6 +1003,8 @@ def correspond(ctx):
     if saw_v0:
         ctx.notes.append("%d coefficient disagreements match the model of the code as found (get_full_coeffs_v0): "
                          "the tree under check does not contain fixes/C14-step-last-sample.diff" % saw_v0)
+    ctx.notes.append("run_analytically %s a None time grid (flag read from the source): slices compared with %s"
+                     % (("guards", "run_slices") if guards_none_grid() else ("does not guard", "run_slices_v2")))
     if saw_v1:
         ctx.notes.append("%d coefficient disagreements match the model of the one-step advance "
                          "(get_full_coeffs_v1): the tree under check does not contain "
